@@ -7,7 +7,7 @@ machine of CondLang and compares truth tables over all assignments.
 """
 from __future__ import annotations
 
-from ..common import Check, drive, replay as _replay, uncps
+from ..common import Check, drive, replay as _replay, uncps, cps
 
 
 def _dump(node, fieldidx):
@@ -79,6 +79,14 @@ def run(tier: str, seed: int) -> int:
     chk.model_check("MC_Text")
     chk.model_check("MC_CondLang", "MC_CondLang.cfg" if tier == "quick" else "MC_CondLang_thorough.cfg")
     cases = chk.generate("Gen_C02", shards=[1, 2, 3, 4, 5, 6])
+    # plus the conditions the repository's own test suite parses (text + detection names as recorded there)
+    from ..harvest import harvest
+
+    hv = harvest({"condition"})["condition"]
+    harvested = [{"id": 5_000_000 + i, "names": [cps(n) for n in h["names"]], "text": cps(h["text"])} for i, h in enumerate(hv)
+                 if all(ord(c) < 2**16 for c in h["text"] + "".join(h["names"]))]
+    chk.coverage["harvested_from_repository_tests"] = len(harvested)
+    cases = cases + harvested
     obs = [o for pair in drive("harness.props.c02", "drive_case", cases) for o in pair["both"]]
     verdicts = chk.judge("Judge_C02", obs)
     chk.binding_selftest("Judge_C02", obs, verdicts, corrupt)
